@@ -84,6 +84,16 @@ class P:
             return ('num', v)
         if k == 'id':
             self.i += 1
+            if self.peek() == ('op', '(') and ('::' in v or v[0].islower()) and self.i < len(self.t):
+                # free function call  path::f(args)
+                self.i += 1
+                args = []
+                while not (self.peek() == ('op', ')')):
+                    args.append(self.expr())
+                    if self.peek() == ('op', ','):
+                        self.i += 1
+                self.eat('op', ')')
+                return ('fcall', v, args)
             return ('place', v)
         if k == 'op' and v == '(':
             self.i += 1
@@ -169,6 +179,9 @@ def canon_place(p):
     return p.replace('(', '').replace(')', '')
 
 
+CALLMAP = {}
+
+
 def to_real(e, env=None, resolve=None):
     """One-step real reading of a float expression: every place becomes rv(place)."""
     e0 = e
@@ -193,6 +206,10 @@ def to_real(e, env=None, resolve=None):
         return f'(-{to_real(e[1], env, resolve)})'
     if k == 'bin':
         return f'({to_real(e[2], env, resolve)} {e[1]} {to_real(e[3], env, resolve)})'
+    if k == 'fcall':
+        if e[1] not in CALLMAP:
+            raise ParseError(f'call to {e[1]} has no real-valued reading')
+        return f"{CALLMAP[e[1]]}({', '.join(to_real(a, env, resolve) for a in e[2])})"
     if k == 'call':
         m, recv, args = e[1], e[2], e[3]
         r = to_real(recv, env, resolve)
@@ -228,6 +245,8 @@ def to_sympy(e, sym, funcs=None):
     if k == 'bin':
         a, b = to_sympy(e[2], sym, funcs), to_sympy(e[3], sym, funcs)
         return {'+': a + b, '-': a - b, '*': a * b, '/': a / b}[e[1]]
+    if k == 'fcall':
+        return sym('@call:' + to_real(e))
     if k == 'call':
         m, recv, args = e[1], e[2], e[3]
         r = to_sympy(recv, sym, funcs)
